@@ -62,7 +62,7 @@ Proof.
   intros H. unfold operator_site. apply existsb_exists. exists s. split; [exact H|apply String.eqb_refl].
 Qed.
 
-Ltac site := apply site_in; cbn [operator_sites In]; tauto.
+Ltac site := vm_compute; reflexivity.
 
 (* ---------- Values.fv_eq ---------- *)
 Lemma fv_eq_safe : forall a b, safe (fun _ => True) (fv_eq a b).
@@ -79,14 +79,16 @@ Local Open Scope Z_scope.
 
 Lemma equals_safe : forall a b, safe (fun _ => True) (equals a b).
 Proof.
-  induction a as [ | z | z | bits | s | b0 | s | l IHl] using fv_ind'; intros b; destruct b;
-    try exact I; try (cbn [equals discriminant]; cbn; apply fv_eq_safe);
-    try (cbn [equals discriminant]; cbn;
-         repeat match goal with |- context [if ?c then _ else _] => destruct c end; exact I).
-  cbn [equals discriminant]. rewrite Z.eqb_refl.
-  destruct (Nat.eqb (List.length l) (List.length l0)); [|exact I].
-  revert l0. induction IHl as [|x l Hx _ IH]; intros [|y r]; try exact I.
-  eapply safe_bind; [apply Hx|]. intros e _. destruct e; [apply IH|exact I].
+  induction a as [ | z | z | bits | s | b0 | s | l IHl] using fv_ind'; intros b; destruct b; try exact I.
+  - cbn [equals discriminant]. cbn.
+    repeat match goal with |- context [if ?c then _ else _] => destruct c end; exact I.
+  - cbn [equals discriminant]. cbn.
+    repeat match goal with |- context [if ?c then _ else _] => destruct c end; exact I.
+  - change (safe (fun _ => True) (fv_eq (F64 bits) (F64 bits0))). apply fv_eq_safe.
+  - cbn [equals discriminant]. rewrite Z.eqb_refl.
+    destruct (Nat.eqb (List.length l) (List.length l0)); [|exact I].
+    revert l0. induction IHl as [|x l Hx _ IH]; intros [|y r]; try exact I.
+    eapply safe_bind; [apply Hx|]. intros e _. destruct e; [apply IH|exact I].
 Qed.
 
 Lemma slow_greater_safe o l r : safe (fun _ => True) (slow_path_greater o l r).
